@@ -680,6 +680,11 @@ pub fn snapshot_text(env: &mut Env<VS>) -> String {
         {
             continue;
         }
+        // (an entry with the default action is the same as no entry: listing
+        // the traps creates such entries)
+        if a == "D" {
+            continue;
+        }
         match cond {
             yash_env::trap::Condition::Signal(n) => lines.push(format!("trap:S{:03}={a}", n.as_raw())),
             other => lines.push(format!("trap:{other:?}={a}")),
